@@ -244,6 +244,24 @@ func aimSharedPointer(sc *StepCase, r *Rng) {
 	off := func() int { return ((lim/2-d+r.Intn(n+2)-1)%m + m) % m }
 	sc.Core[x] = mars.Insn{Op: mars.DAT, Mod: mars.MF, AM: mars.DIR, BM: mars.DIR, A: off(), B: off()}
 	bm := []mars.Mode{mars.BIND, mars.AIND}[r.Intn(2)]
+	if m >= 24 && r.Bool() {
+		// the same, but the two stores are far apart: store, jump over a gap, store (three steps)
+		gap := r.Range(2, min(m/2-2, max(2, lim)))
+		far := r.Range(gap+3, min(m-2, gap+3+max(2, lim)))
+		x = (sc.PC + far) % m
+		sc.Core[x] = mars.Insn{Op: mars.DAT, Mod: mars.MF, AM: mars.DIR, BM: mars.DIR, A: ((lim/2-far+r.Intn(gap+4)-1)%m + m) % m, B: ((lim/2-far+r.Intn(gap+4)-1)%m + m) % m}
+		st := func(at int) {
+			ins := mars.Insn{Op: []mars.Op{mars.MOV, mars.ADD, mars.SUB, mars.MOV}[r.Intn(4)], Mod: mars.Mod(r.Intn(int(mars.NumMods))), AM: []mars.Mode{mars.IMM, mars.DIR}[r.Intn(2)], BM: bm}
+			ins.A = r.Intn(2)
+			ins.B = (x - at + 2*m) % m
+			sc.Core[at%m] = ins
+		}
+		st(sc.PC)
+		sc.Core[(sc.PC+1)%m] = mars.Insn{Op: mars.JMP, Mod: mars.MB, AM: mars.DIR, BM: mars.DIR, A: gap}
+		st(sc.PC + 1 + gap)
+		sc.K = 3
+		return
+	}
 	for i := 0; i < n; i++ {
 		ins := mars.Insn{Op: []mars.Op{mars.MOV, mars.ADD, mars.SUB, mars.MOV}[r.Intn(4)], Mod: mars.Mod(r.Intn(int(mars.NumMods))), AM: []mars.Mode{mars.IMM, mars.DIR}[r.Intn(2)], BM: bm}
 		ins.A = r.Intn(2)
